@@ -462,8 +462,9 @@ func (ea *functionAnalysisState) transferFunction(instruction ssa.Instruction, g
 		// Add the receiver of the call or the closure, if present. The parameters are out
 		// of order, but it doesn't matter for CallUnknown.
 		switch instr.Call.Value.(type) {
-		case *ssa.Function, *ssa.Builtin, *ssa.Global:
-			// do nothing, there is no receiver or globals are already leaked
+		case *ssa.Function, *ssa.Builtin, *ssa.Global, *ssa.Const:
+			// do nothing, there is no receiver or globals are already leaked. A constant callee (or interface
+			// receiver) can only be nil, which has nothing to leak.
 		case ssa.Instruction, *ssa.Parameter, *ssa.FreeVar:
 			args = append(args, nodes.ValueNode(instr.Call.Value))
 		default:
